@@ -573,4 +573,103 @@ theorem match_step_reaches_provider (P : Provider Strat G) (c : XCtx Strat) (n :
     doTrafficRoutingX stratOps (some P) c Api.ok n m = routeStepX (some P) c.strategy Api.ok n m := by
   exact doTRX_inPlace stratOps (some P) c Api.ok n m href (match_step_is_a_step c.strategy hm) rfl hex hw hin hrev
 
+
+/-- The full-strength statement (without `hasRevKey`) is FALSE on the unchanged code, whatever the provider:
+    with an empty revision label key `RestoreStableService` finds nothing to remove and the whole clean-up
+    reports *done* while the stable Service is still pinned (known finding `noRevKey`, as for the old model:
+    `RV.Props.Traffic.finalising_order_full_FALSE`).  Witness with the trivially lawful provider `idle`. -/
+theorem finalisingX_order_full_FALSE :
+    ∃ (c : XCtx Unit) (n : XNet Unit) (m : Mem), c.hasRevKey = false ∧
+      finalisingOrderX c true (finalisingTrafficRoutingX (some idle) c Api.ok n m) = false := by
+  refine ⟨{ hasRef := true, grace := 0, strategy := (), disableGen := false, stableRev := "v1", canaryRev := "v2",
+            lastUpdate := .none, hasRevKey := false },
+          { stableExists := true, stableSel := some "v1", canarySvc := some "v2", g := () }, Mem.empty, rfl, by decide⟩
+
+/-! ## composite: all or nothing -/
+
+section composite
+variable (p q : Provider S G)
+
+/-- **`composite_all_or_nothing` (EnsureRoutes, verdict)** — a composite that returned neither an error nor a
+    panic reports *verified* exactly when every member does (each on the objects its predecessors left). -/
+theorem seq_verified_iff (a : Api) (g : G) (s : S) (hp : ((seq p q).ensure a g s).panic = false)
+    (he : ((seq p q).ensure a g s).err = false) :
+    ((seq p q).ensure a g s).flag = true ↔
+      ((p.ensure a g s).flag = true ∧ (q.ensure (p.ensure a g s).a (p.ensure a g s).g s).flag = true) := by
+  simp only [seq] at hp he ⊢
+  by_cases p1 : (p.ensure a g s).panic = true
+  · simp [p1] at hp
+  · by_cases e1 : (p.ensure a g s).err = true
+    · simp [p1, e1] at he
+    · by_cases p2 : (q.ensure (p.ensure a g s).a (p.ensure a g s).g s).panic = true
+      · simp [p1, e1, p2] at hp
+      · by_cases e2 : (q.ensure (p.ensure a g s).a (p.ensure a g s).g s).err = true
+        · simp [p1, e1, p2, e2] at he
+        · simp [p1, e1, p2, e2]
+
+/-- **`composite_all_or_nothing` (EnsureRoutes, error)** — an error of a member ends the round: the members
+    after it are not called in that call (the result is the failing member's own result). -/
+theorem seq_error_stops (a : Api) (g : G) (s : S) (hp : (p.ensure a g s).panic = false)
+    (he : (p.ensure a g s).err = true) :
+    (seq p q).ensure a g s = { p.ensure a g s with flag := false } := by
+  simp [seq, hp, he]
+
+/-- **`composite_all_or_nothing` (EnsureRoutes, not verified)** — a member that is merely *not verified* does not
+    end the round: the remaining members are still called, on the objects it left. -/
+theorem seq_unverified_continues (a : Api) (g : G) (s : S) (hp : (p.ensure a g s).panic = false)
+    (he : (p.ensure a g s).err = false) :
+    ((seq p q).ensure a g s).g = (q.ensure (p.ensure a g s).a (p.ensure a g s).g s).g ∧
+    ((seq p q).ensure a g s).writes = (p.ensure a g s).writes ++ (q.ensure (p.ensure a g s).a (p.ensure a g s).g s).writes := by
+  simp only [seq, hp, he, Bool.false_eq_true, if_false]
+  split
+  · exact ⟨rfl, rfl⟩
+  · split <;> exact ⟨rfl, rfl⟩
+
+/-- **`composite_all_or_nothing` (Finalise)** — an error of a member is collected and the remaining members are
+    finalised all the same; the error is returned at the end; `modified` is set by the members that did not fail. -/
+theorem seq_finalise_continues (a : Api) (g : G) (hp : (p.finalise a g).panic = false)
+    (hq : (q.finalise (p.finalise a g).a (p.finalise a g).g).panic = false) :
+    ((seq p q).finalise a g).g = (q.finalise (p.finalise a g).a (p.finalise a g).g).g ∧
+    ((seq p q).finalise a g).err = ((p.finalise a g).err || (q.finalise (p.finalise a g).a (p.finalise a g).g).err) ∧
+    ((seq p q).finalise a g).flag =
+      ((!(p.finalise a g).err && (p.finalise a g).flag) || (q.finalise (p.finalise a g).a (p.finalise a g).g).flag) ∧
+    ((seq p q).finalise a g).writes =
+      (p.finalise a g).writes ++ (q.finalise (p.finalise a g).a (p.finalise a g).g).writes := by
+  simp [seq, hp, hq]
+
+end composite
+
+/-- every member verified, each on the objects (and API health) its predecessors left -/
+def allVerified : List (Provider S G) → Api → G → S → Prop
+  | [], _, _, _ => True
+  | p :: ps, a, g, s => (p.ensure a g s).flag = true ∧ allVerified ps (p.ensure a g s).a (p.ensure a g s).g s
+
+/-- **`composite_all_or_nothing`** for `CompositeController` of any length -/
+theorem composite_verified_iff (ps : List (Provider S G)) (a : Api) (g : G) (s : S)
+    (hp : ((composite ps).ensure a g s).panic = false) (he : ((composite ps).ensure a g s).err = false) :
+    ((composite ps).ensure a g s).flag = true ↔ allVerified ps a g s := by
+  induction ps generalizing a g with
+  | nil => simp [composite, idle, allVerified]
+  | cons p ps ih =>
+    simp only [composite] at hp he ⊢
+    rw [seq_verified_iff p (composite ps) a g s hp he]
+    simp only [allVerified]
+    have hp1 : (p.ensure a g s).panic = false := by
+      by_cases h : (p.ensure a g s).panic = true
+      · simp [seq, h] at hp
+      · simpa using h
+    have he1 : (p.ensure a g s).err = false := by
+      by_cases h : (p.ensure a g s).err = true
+      · simp [seq, hp1, h] at he
+      · simpa using h
+    have hp2 : ((composite ps).ensure (p.ensure a g s).a (p.ensure a g s).g s).panic = false := by
+      by_cases h : ((composite ps).ensure (p.ensure a g s).a (p.ensure a g s).g s).panic = true
+      · simp [seq, hp1, he1, h] at hp
+      · simpa using h
+    have he2 : ((composite ps).ensure (p.ensure a g s).a (p.ensure a g s).g s).err = false := by
+      by_cases h : ((composite ps).ensure (p.ensure a g s).a (p.ensure a g s).g s).err = true
+      · simp [seq, hp1, he1, hp2, h] at he
+      · simpa using h
+    rw [ih _ _ hp2 he2]
+
 end RV.Props.TrafficX
